@@ -52,6 +52,7 @@ def dispatch (line : String) : String :=
     | "racc" => C15.raccOp args
     | "cstall" => PoolOp.cstallOp args
     | "tstall" => PoolOp.tstallOp args
+    | "late" => PoolOp.lateOp args
     | "shut" => PoolOp.shutOp args
     | "transports" => C18.transportsOp args
     | "body" => C10.bodyOp args
